@@ -155,12 +155,50 @@ def oracle_selfcheck(ctx, progs, lower, upper, limit=60):
     ctx.cov["oracle_selfcheck_programs"] = len(idx)
 
 
+def exhaustive_part(ctx, progs, want, n_quick=250, label="exh"):
+    """small-scope exhaustive family (all programs over a small alphabet): the full set in the thorough tier,
+    a seeded slice in the quick tier.  Open findings: their shapes keep only the comparisons they do not affect."""
+    import random
+    if ctx.tier == "quick":
+        rng = random.Random(ctx.seed * 8675309 + 7)
+        progs = rng.sample(progs, min(n_quick, len(progs)))
+    progs = [dsl.normalize(p) for p in progs]
+    groups = {}
+    for p in progs:
+        w = set(want)
+        if families.q_mo(p):
+            w -= {"sound", "trace"}          # F3/F4
+        if families.q_f16(p):
+            w -= {"complete"}                # F16
+        for k in families.waived(p):
+            w.discard(k)                     # F13 / yield
+        if w:
+            groups.setdefault(tuple(sorted(w)), []).append(p)
+    for w, ps in sorted(groups.items()):
+        lower, upper = core.lower_upper(ctx, ps, families.has_sc_access)
+        if "complete" in w:
+            sc_lower_bound(ctx, ps, lower, upper)
+        res = core.run_loom(ctx, ps, cfg_of=lambda p: {"iter_cap": iter_cap(ctx.tier), "trace_cap": 12 if "trace" in w else 0}, tag=label)
+        nontriv = 0
+        for p, lo, up, r in zip(ps, lower, upper, res):
+            if core.compare_sandwich(ctx, p, lo, up, r, want=w):
+                nontriv += 1
+        if "trace" in w:
+            core.validate_traces(ctx, ps, res, label="trace_" + label)
+        ctx.cov["programs"] += len(ps)
+        ctx.cov["evaluations"] += len(ps)
+        ctx.cov["distinct_nontrivial"] += nontriv
+    ctx.cov["exhaustive_small_scope_programs"] = ctx.cov.get("exhaustive_small_scope_programs", 0) + len(progs)
+    ctx.cov["exhaustive"] = ctx.tier == "thorough"
+
+
 def C02(ctx):
     ctx.assumptions += ["Lower(P) = LoomSem view machine with RC11 same-thread release sequences; programs with "
                         "SeqCst accesses use the interleaving outcomes (always RC11-consistent) as lower bound",
                         "<= 5 stores per location; no load buffering (po u rf acyclic is built into the machine)"]
     ctx.notes.append("random tail quarantined for the open finding F16 (families.q_f16)")
     memory_model(ctx, ("complete",), avoid=(families.q_f16,))
+    exhaustive_part(ctx, families.exhaustive_atomics(), ("complete",), label="exh_atomics")
 
 
 def C03(ctx):
@@ -170,6 +208,7 @@ def C03(ctx):
     ctx.notes.append("random tail quarantined for open findings F3/F4 (families.q_mo); the enumerated core keeps "
                      "the multi-writer shapes and re-confirms the listed witnesses")
     memory_model(ctx, ("sound", "trace"), avoid=(families.q_mo,))
+    exhaustive_part(ctx, families.exhaustive_atomics(), ("sound", "trace"), label="exh_atomics")
 
 
 def sync_family(ctx, progs, want=("complete", "sound", "fails", "trace"), tcap=None, waive=True):
@@ -203,6 +242,7 @@ def C01(ctx):
                         "SeqCst atomics; Upper(P) treats SeqCst accesses as acquire/release"]
     progs = families.syncmix(ctx.tier, ctx.seed)
     sync_family(ctx, progs)
+    exhaustive_part(ctx, families.exhaustive_sync(), ("complete", "sound", "fails", "trace"), label="exh_sync")
 
 
 def C04(ctx):
